@@ -490,6 +490,9 @@ fn merge_tables(
     // IMPORTANT: Unlock exclusive compaction lock as we are now doing the actual (CPU-intensive) compaction
     drop(compaction_state);
 
+    #[cfg(feature = "verif")]
+    crate::verif::yield_point("compact:hidden");
+
     hidden_guard(payload, opts, || {
         for (idx, item) in merge_iter.enumerate() {
             let item = item?;
@@ -508,6 +511,9 @@ fn merge_tables(
     if let Some(filter) = compaction_filter {
         filter.finish();
     }
+
+    #[cfg(feature = "verif")]
+    crate::verif::yield_point("compact:before_commit");
 
     #[expect(clippy::expect_used, reason = "lock is expected to not be poisoned")]
     let mut compaction_state = opts.compaction_state.lock().expect("lock is poisoned");
